@@ -89,17 +89,8 @@ func sentinelsOfRec(fn *ssa.Function, depth int, onStack map[*ssa.Function]bool)
 					out = append(out, sentinelsOfRec(sc, depth+1, onStack)...)
 				}
 				// a helper of the library that only builds an error
-				if sc := x.Call.StaticCallee(); sc != nil && sc != fn && sc.Pkg != nil && isLibPkgPath(sc.Pkg.Pkg.Path()) && sc.Blocks != nil && len(sc.Blocks) <= 2 {
-					// ... an error, or a result object carrying one
-					if res := sc.Signature.Results(); res.Len() == 1 && (isErrorType(res.At(0).Type()) || resultTypeHasErrorField(res.At(0).Type())) {
-						allInstrs(sc, func(in2 ssa.Instruction) {
-							if c2, ok := in2.(*ssa.Call); ok {
-								if g := errorfWraps(c2); g != nil {
-									out = append(out, g.Name())
-								}
-							}
-						})
-					}
+				if sc := x.Call.StaticCallee(); sc != nil && sc != fn {
+					out = append(out, errorBuilderSentinels(sc, 0)...)
 				}
 			case *ssa.Return:
 				for _, rv := range x.Results {
@@ -165,5 +156,32 @@ func diffMulti(a, b []string) []string {
 			out = append(out, x)
 		}
 	}
+	return out
+}
+
+// errorBuilderSentinels: sc is a small library helper that only builds an error (or a result object carrying one),
+// possibly through another such helper: the sentinels it wraps.
+func errorBuilderSentinels(sc *ssa.Function, depth int) []string {
+	if depth > 2 || sc.Pkg == nil || !isLibPkgPath(sc.Pkg.Pkg.Path()) || sc.Blocks == nil || len(sc.Blocks) > 2 {
+		return nil
+	}
+	res := sc.Signature.Results()
+	if res.Len() != 1 || !(isErrorType(res.At(0).Type()) || resultTypeHasErrorField(res.At(0).Type())) {
+		return nil
+	}
+	var out []string
+	allInstrs(sc, func(in ssa.Instruction) {
+		c2, ok := in.(*ssa.Call)
+		if !ok {
+			return
+		}
+		if g := errorfWraps(c2); g != nil {
+			out = append(out, g.Name())
+			return
+		}
+		if h := c2.Call.StaticCallee(); h != nil && h != sc {
+			out = append(out, errorBuilderSentinels(h, depth+1)...)
+		}
+	})
 	return out
 }
